@@ -130,6 +130,7 @@ impl<'a> Case<'a> {
         let nt = case["nt"].as_u64().unwrap() as usize;
         let mi = case["mi"].as_u64().unwrap() as usize;
         let world = World::new(nt);
+        hexec::instr::set_current(&world);
         hooks::reset();
         let exe = if runtime {
             let rt = compio_runtime::Runtime::builder()
@@ -323,6 +324,7 @@ impl<'a> Case<'a> {
                 let before: Vec<u32> = (0..=self.nt).map(|t| self.world.t(t).fdrops.load(SeqCst)).collect();
                 let ret = self.exe.tick();
                 let order = lock(&self.world.order).clone();
+                let too_many = order.len() > self.mi;
                 let left = lock(&self.world.script).len();
                 lock(&self.world.script).clear();
                 // starvation oracle: which runnable tasks were processed by this tick
@@ -361,7 +363,7 @@ impl<'a> Case<'a> {
                     }
                 }
                 extra = json!({"ret": ret, "order": order.iter().map(|o| json!([o.0, o.1])).collect::<Vec<_>>(),
-                               "unscripted": order.iter().filter(|o| !o.2).count(), "script_left": left,
+                               "unscripted": order.iter().filter(|o| !o.2).count(), "script_left": left, "too_many": too_many,
                                "starved": starved});
             }
             "clear" | "execdrop" => {
@@ -473,6 +475,9 @@ impl<'a> Case<'a> {
         for (t, site) in &h.uaf {
             v.push(("access-after-dealloc", format!("task {t} at {site}")));
         }
+        if extra.get("too_many") == Some(&json!(true)) {
+            v.push(("tick-exceeds-max_interval", format!("one tick polled {} tasks, max_interval is {}", extra["order"], self.mi)));
+        }
         if let Some(st) = extra.get("starved").and_then(|s| s.as_array()) {
             for t in st {
                 let t = t.as_u64().unwrap() as usize;
@@ -497,6 +502,8 @@ fn run_case(case: &Value, runtime: bool, idx: u64, rep: &mut Report) {
     let mode = if runtime { "runtime" } else { "executor" };
     let steps = case["steps"].as_array().unwrap();
     let mut aborted = false;
+    // after the first difference from the model the rest of the program still runs under the contract oracle
+    let mut drifted = false;
     for (i, st) in steps.iter().enumerate() {
         let a = st["a"].as_str().unwrap().to_string();
         rep.steps += 1;
@@ -542,11 +549,14 @@ fn run_case(case: &Value, runtime: bool, idx: u64, rep: &mut Report) {
         if extra.get("cancel_pending").is_some() {
             diffs.push("cancel-pending");
         }
+        if drifted {
+            continue;
+        }
         if let Some(f) = diffs.first() {
+            drifted = true;
             rep.problem("mismatch", json!({"site": "task", "mode": mode, "field": f, "act": a}),
                         format!("case {idx} step {i} ({a}): fields {diffs:?} differ; model {x} polls {} ret {}; real {obs} {extra}",
                                 st["polls"], st["ret"]), case, i);
-            break;
         }
     }
     // release every holder: afterwards every task must be gone, exactly once
@@ -593,6 +603,9 @@ fn main() {
             continue;
         }
         rep.cases += 1;
+        // progress marker: if the code under test corrupts the heap and the process is killed, the
+        // check reports the case that was running
+        eprintln!("@case {i}");
         run_case(&case, runtime, i as u64, &mut rep);
     }
     rep.finish();
